@@ -276,8 +276,8 @@ def read_configuration(path):
             or len(a.defaults) != 1 or not (isinstance(a.defaults[0], ast.Constant) and a.defaults[0].value is True)):
         fail("Config.__init__: expected (self, infer_from_env=True)", init, path)
     b = body_nodoc(init)
-    if len(b) != 9:
-        fail("Config.__init__: expected 9 statements, found %d" % len(b), init, path)
+    if len(b) != 8:
+        fail("Config.__init__: expected 8 statements, found %d" % len(b), init, path)
 
     def get_default_call(n, what):
         """_get_default(infer_from_env, "<ENV>", <default expr>) -> (env, default node)"""
@@ -359,12 +359,504 @@ def read_configuration(path):
     if flags["use_graph_primitive"][2] == flags["use_graph_division_primitive"][2]:
         fail("Config.__init__: both flags use the same default local", init, path)
     # 7: self.solver_timeout = None
-    tg, val = assign1(b[7 if len(b) > 8 else 7], "Config.__init__[7]")
-    # (b has 9 entries because statement 1..8 + nothing else; index 7 is solver_timeout, see below)
-    return mod, fs, b, {
+    tg, val = assign1(b[7], "Config.__init__[7]")
+    if not (is_self_attr(tg, "solver_timeout") and isinstance(val, ast.Constant) and val.value is None):
+        fail("Config.__init__[7]: expected self.solver_timeout = None", b[7], path)
+    # module level: config = Config()
+    cfg_assign = [n for n in mod.body if isinstance(n, ast.Assign) and len(n.targets) == 1 and is_name(n.targets[0], "config")]
+    if len(cfg_assign) != 1 or not (isinstance(cfg_assign[0].value, ast.Call) and is_name(cfg_assign[0].value.func, "Config")
+                                    and not cfg_assign[0].value.args and not cfg_assign[0].value.keywords):
+        fail("expected module-level `config = Config()`", None, path)
+    return {
         "detect": detect, "fallback": fallback, "env_backend": env_backend, "backend_default": backend_default,
         "auto": auto, "env_path": env_path,
         "env_prim": flags["use_graph_primitive"][0], "prim_on": flags["use_graph_primitive"][1],
         "env_div": flags["use_graph_division_primitive"][0], "div_on": flags["use_graph_division_primitive"][1],
         "on_str": s_on1, "off_str": s_off1, "true": t_true, "false": t_false,
     }
+
+
+# ------------------------------------------------------------------ solver.py
+
+T_GET_DEFAULT_BACKEND = '''
+def _get_default_backend():
+    backend_name = config.default_backend
+    return _get_backend_by_name(backend_name)
+'''
+
+T_GET_BACKEND = '''
+def _get_backend(backend):
+    if backend is None:
+        return _get_default_backend()
+    elif isinstance(backend, str):
+        return _get_backend_by_name(backend)
+    else:
+        return backend
+'''
+
+
+def read_solver(path):
+    mod = parse_file(path)
+    fs = module_funcs(mod, path)
+    for need in ("_get_backend_by_name", "_get_default_backend", "_get_backend"):
+        if need not in fs:
+            fail("function %s not found" % need, None, path)
+    require_single_binding(mod, ["_get_backend_by_name", "_get_default_backend", "_get_backend", "config", "backend", "Solver"], path)
+    if not has_import_from(mod, "", "backend", 1):
+        fail("`from . import backend` not found", None, path)
+    if not has_import_from(mod, "configuration", "config", 1):
+        fail("`from .configuration import config` not found", None, path)
+    if norm(fs["_get_default_backend"]) != norm_src(T_GET_DEFAULT_BACKEND):
+        fail("_get_default_backend has an unexpected body", fs["_get_default_backend"], path)
+    if norm(fs["_get_backend"]) != norm_src(T_GET_BACKEND):
+        fail("_get_backend has an unexpected body", fs["_get_backend"], path)
+
+    f = fs["_get_backend_by_name"]
+    a = f.args
+    if len(a.args) != 1 or a.vararg or a.kwarg or a.kwonlyargs or a.posonlyargs or a.defaults:
+        fail("_get_backend_by_name: unexpected signature", f, path)
+    p = a.args[0].arg
+    b = body_nodoc(f)
+    if len(b) != 1 or not isinstance(b[0], ast.If):
+        fail("_get_backend_by_name: expected a single if/elif chain", f, path)
+    chain = []
+    cur = b[0]
+    while True:
+        t = cur.test
+        if not (isinstance(t, ast.Compare) and is_name(t.left, p) and len(t.ops) == 1 and isinstance(t.ops[0], ast.Eq)):
+            fail("_get_backend_by_name: expected `%s == <name>`" % p, t, path)
+        name = const_str(t.comparators[0], path, "_get_backend_by_name")
+        if not (len(cur.body) == 1 and isinstance(cur.body[0], ast.Return)):
+            fail("_get_backend_by_name: expected `return backend.<module>.<Class>`", cur, path)
+        q = dotted(cur.body[0].value)
+        if q is None or not q.startswith("backend.") or q.count(".") != 2:
+            fail("_get_backend_by_name: expected `return backend.<module>.<Class>`", cur.body[0], path)
+        chain.append((name, q[len("backend."):]))
+        if len(cur.orelse) == 1 and isinstance(cur.orelse[0], ast.If):
+            cur = cur.orelse[0]
+            continue
+        r = cur.orelse
+        if not (len(r) == 1 and isinstance(r[0], ast.Raise) and isinstance(r[0].exc, ast.Call) and is_name(r[0].exc.func, "ValueError")):
+            fail("_get_backend_by_name: the chain must end with `else: raise ValueError(...)`", cur, path)
+        break
+
+    # Solver.find_answer / Solver.solve: class instantiated is _get_backend(backend)
+    cls = module_class(mod, "Solver", path)
+    ms = class_methods(cls, path)
+    for mname in ("find_answer", "solve"):
+        m = ms.get(mname)
+        if m is None:
+            fail("Solver.%s not found" % mname, cls, path)
+        a = m.args
+        if ([x.arg for x in a.args] != ["self", "backend"] or a.vararg or a.kwarg or a.kwonlyargs or a.posonlyargs
+                or len(a.defaults) != 1 or not (isinstance(a.defaults[0], ast.Constant) and a.defaults[0].value is None)):
+            fail("Solver.%s: expected (self, backend=None)" % mname, m, path)
+        gb = [n for n in ast.walk(m) if isinstance(n, ast.Call) and is_name(n.func, "_get_backend")]
+        if len(gb) != 1 or len(gb[0].args) != 1 or gb[0].keywords or not is_name(gb[0].args[0], "backend"):
+            fail("Solver.%s: expected exactly one `_get_backend(backend)`" % mname, m, path)
+        asg = [n for n in body_nodoc(m) if isinstance(n, ast.Assign) and n.value is gb[0]]
+        if len(asg) != 1 or len(asg[0].targets) != 1 or not isinstance(asg[0].targets[0], ast.Name):
+            fail("Solver.%s: `_get_backend(backend)` must be assigned to a local at the top level" % mname, m, path)
+        bt = asg[0].targets[0].id
+        stores = [n for n in ast.walk(m) if isinstance(n, ast.Name) and n.id in (bt, "backend") and isinstance(n.ctx, (ast.Store, ast.Del))]
+        if len(stores) != 1:
+            fail("Solver.%s: `%s`/`backend` re-assigned" % (mname, bt), m, path)
+        inst = [n for n in ast.walk(m) if isinstance(n, ast.Call) and is_name(n.func, bt)]
+        uses = [n for n in ast.walk(m) if isinstance(n, ast.Name) and n.id == bt and isinstance(n.ctx, ast.Load)]
+        if len(inst) != 1 or len(uses) != 1:
+            fail("Solver.%s: expected exactly one instantiation `%s(...)`" % (mname, bt), m, path)
+        inst_asg = [n for n in body_nodoc(m) if isinstance(n, ast.Assign) and n.value is inst[0]]
+        if len(inst_asg) != 1 or len(inst_asg[0].targets) != 1 or not isinstance(inst_asg[0].targets[0], ast.Name):
+            fail("Solver.%s: the backend instance must be assigned to a local at the top level" % mname, m, path)
+        cs = inst_asg[0].targets[0].id
+        # every solver call in the method goes to that instance
+        for n in ast.walk(m):
+            if isinstance(n, ast.Call) and isinstance(n.func, ast.Attribute) and n.func.attr in ("solve", "solve_irrefutably", "add_constraint"):
+                if not is_name(n.func.value, cs):
+                    fail("Solver.%s: %s called on something else than the selected backend instance" % (mname, n.func.attr), n, path)
+        if not any(isinstance(n, ast.Call) and isinstance(n.func, ast.Attribute) and n.func.attr in ("solve", "solve_irrefutably") and is_name(n.func.value, cs) for n in ast.walk(m)):
+            fail("Solver.%s: no solve call on the selected backend instance" % mname, m, path)
+    return {"backends": chain}
+
+
+# ------------------------------------------------------------------ backend classes
+
+T_CALL_MODULE = '''
+def _call_solver(self, csp_description):
+    import %(m)s
+    return %(m)s.solver(csp_description)
+'''
+
+T_CALL_SUBPROCESS = '''
+def _call_solver(self, csp_description):
+    sugar_path = config.backend_path or %(d)r
+    out = run_subprocess([sugar_path, "/dev/stdin"], csp_description, timeout=config.solver_timeout)
+    return out
+'''
+
+T_NOT_IMPL = '''
+def solve_irrefutably(self, is_answer_key):
+    raise NotImplementedError
+'''
+
+
+def read_backend_classes(backend_dir, chain):
+    entries = []
+    done = set()
+    cache = {}
+    for _, q in chain:
+        if q in done:
+            continue
+        done.add(q)
+        modname, clsname = q.split(".")
+        path = os.path.join(backend_dir, modname + ".py")
+        if modname not in cache:
+            if not os.path.exists(path):
+                fail("backend module %s not found" % modname, None, path)
+            cache[modname] = parse_file(path)
+        mod = cache[modname]
+        init_path = os.path.join(backend_dir, "__init__.py")
+        if modname == "sugar_like":
+            cls = module_class(mod, clsname, path)
+            require_single_binding(mod, [clsname, "SugarLikeBackend", "config", "run_subprocess"], path)
+            if not has_import_from(mod, "configuration", "config", 2):
+                fail("`from ..configuration import config` not found", None, path)
+            if not (len(cls.bases) == 1 and is_name(cls.bases[0], "SugarLikeBackend")) or cls.keywords or cls.decorator_list:
+                fail("class %s: expected the single base SugarLikeBackend" % clsname, cls, path)
+            ms = class_methods(cls, path)
+            for n in cls.body:
+                if isinstance(n, ast.Expr) and isinstance(n.value, ast.Constant):
+                    continue
+                if not (isinstance(n, ast.FunctionDef) and n.name in ("_call_solver", "solve_irrefutably")):
+                    fail("class %s: unexpected member" % clsname, n, path)
+            if "solve_irrefutably" in ms and norm(ms["solve_irrefutably"]) != norm_src(T_NOT_IMPL):
+                fail("class %s: solve_irrefutably override is not `raise NotImplementedError`" % clsname, ms["solve_irrefutably"], path)
+            cs = ms.get("_call_solver")
+            if cs is None:
+                fail("class %s: _call_solver not found" % clsname, cls, path)
+            b = body_nodoc(cs)
+            if b and isinstance(b[0], ast.Import) and len(b[0].names) == 1 and b[0].names[0].asname is None:
+                m = b[0].names[0].name
+                if not m.isidentifier() or norm(cs) != norm_src(T_CALL_MODULE % {"m": m}):
+                    fail("class %s: _call_solver is not `import M; return M.solver(csp_description)`" % clsname, cs, path)
+                entries.append((q, ("module", m)))
+            else:
+                d = None
+                if (b and isinstance(b[0], ast.Assign) and isinstance(b[0].value, ast.BoolOp) and len(b[0].value.values) == 2
+                        and isinstance(b[0].value.values[1], ast.Constant) and isinstance(b[0].value.values[1].value, str)):
+                    d = b[0].value.values[1].value
+                if d is None or norm(cs) != norm_src(T_CALL_SUBPROCESS % {"d": d}):
+                    fail("class %s: _call_solver is not the subprocess call on `config.backend_path or <default>`" % clsname, cs, path)
+                entries.append((q, ("subprocess", d)))
+            # the base class reaches the solver only through self._call_solver
+            base = module_class(mod, "SugarLikeBackend", path)
+            bms = class_methods(base, path)
+            for mname in ("solve", "solve_irrefutably"):
+                if mname not in bms:
+                    fail("SugarLikeBackend.%s not found" % mname, base, path)
+                calls = [n for n in ast.walk(bms[mname]) if isinstance(n, ast.Call) and isinstance(n.func, ast.Attribute)
+                         and n.func.attr == "_call_solver" and is_name(n.func.value, "self")]
+                if len(calls) != 1:
+                    fail("SugarLikeBackend.%s: expected exactly one self._call_solver(...)" % mname, bms[mname], path)
+        elif modname == "z3":
+            cls = module_class(mod, clsname, path)
+            init = class_methods(cls, path).get("__init__")
+            if init is None:
+                fail("class %s: __init__ not found" % clsname, cls, path)
+            imps = [n for n in ast.walk(cls) if isinstance(n, ast.Call) and dotted(n.func) == "importlib.import_module"]
+            if len(imps) != 1 or len(imps[0].args) != 1 or imps[0].keywords:
+                fail("class %s: expected exactly one importlib.import_module(<name>)" % clsname, cls, path)
+            m = const_str(imps[0].args[0], path, "import_module")
+            if any(isinstance(n, (ast.Import, ast.ImportFrom)) for n in ast.walk(cls)):
+                fail("class %s: unexpected import statement" % clsname, cls, path)
+            entries.append((q, ("module", m)))
+        else:
+            fail("backend module %s is not modelled" % modname, None, path)
+        # backend/__init__.py must expose the module under that name
+        imod = parse_file(init_path)
+        if not has_import_from(imod, "", modname, 1):
+            fail("backend/__init__.py does not import %s" % modname, None, init_path)
+    return {"entries": entries}
+
+
+# ------------------------------------------------------------------ graph.py
+
+UGP = "use_graph_primitive"
+FLAG_ATTRS = {"use_graph_primitive": "FlagPrim", "use_graph_division_primitive": "FlagDiv"}
+NATIVE_OPS = {"GRAPH_ACTIVE_VERTICES_CONNECTED": "OpAVC", "GRAPH_DIVISION": "OpDIV"}
+
+
+def _params(fn):
+    a = fn.args
+    pos = [x.arg for x in a.posonlyargs] + [x.arg for x in a.args]
+    kwonly = [x.arg for x in a.kwonlyargs]
+    defaults = {}
+    for name, d in zip(pos[len(pos) - len(a.defaults):], a.defaults):
+        defaults[name] = d
+    for name, d in zip(kwonly, a.kw_defaults):
+        if d is not None:
+            defaults[name] = d
+    return pos, kwonly, defaults
+
+
+def read_graph(path):
+    mod = parse_file(path)
+    fs = module_funcs(mod, path)
+    if not has_import_from(mod, "configuration", "config", 1):
+        fail("`from .configuration import config` not found", None, path)
+    require_single_binding(mod, ["config", "Op"], path)
+    for n in mod.body:
+        if isinstance(n, ast.FunctionDef) and is_overload(n):
+            continue
+        if isinstance(n, ast.FunctionDef):
+            for m in ast.walk(n):
+                if m is not n and isinstance(m, (ast.FunctionDef, ast.Lambda, ast.ClassDef, ast.AsyncFunctionDef)):
+                    for k in ast.walk(m):
+                        if (isinstance(k, ast.Name) and k.id in (UGP, "config")) or (isinstance(k, ast.Attribute) and k.attr in NATIVE_OPS):
+                            fail("nested function/lambda touches use_graph_primitive/config/native op", k, path)
+        elif isinstance(n, ast.ClassDef):
+            for k in ast.walk(n):
+                if (isinstance(k, ast.Name) and k.id in (UGP, "config")) or (isinstance(k, ast.Attribute) and k.attr in NATIVE_OPS):
+                    fail("class %s touches use_graph_primitive/config/native op" % n.name, k, path)
+        else:
+            for k in ast.walk(n):
+                if (isinstance(k, ast.Name) and k.id == UGP) or (isinstance(k, ast.Attribute) and k.attr in NATIVE_OPS):
+                    fail("module-level statement touches use_graph_primitive/native op", k, path)
+                if isinstance(k, ast.Name) and k.id == "config" and not isinstance(n, ast.ImportFrom):
+                    fail("module-level statement touches config", k, path)
+
+    has_ugp = set()
+    for name, f in fs.items():
+        pos, kwonly, _ = _params(f)
+        if f.args.vararg or f.args.kwarg:
+            if any(isinstance(k, ast.Name) and k.id == UGP for k in ast.walk(f)):
+                fail("%s: *args/**kwargs together with use_graph_primitive" % name, f, path)
+        if UGP in pos or UGP in kwonly:
+            has_ugp.add(name)
+
+    sites, calls, emits, raises = [], [], [], []
+
+    for name, f in fs.items():
+        pos, kwonly, _ = _params(f)
+        my_params = set(pos) | set(kwonly)
+        accounted = set()      # ids of Name(use_graph_primitive) / config attribute nodes that have a meaning
+        state = {"site": None, "guard": False, "mentioned": False}
+
+        def handle_call(c, br, var):
+            g = c.func.id
+            gpos, gkw, gdef = _params(fs[g])
+            if any(isinstance(x, ast.Starred) for x in c.args) or any(k.arg is None for k in c.keywords):
+                fail("%s: call to %s with */** arguments" % (name, g), c, path)
+
+            def actual(pname):
+                for k in c.keywords:
+                    if k.arg == pname:
+                        return k.value
+                if pname in gpos and gpos.index(pname) < len(c.args):
+                    return c.args[gpos.index(pname)]
+                return None
+
+            v = actual(UGP)
+            if v is None:
+                if not (UGP in gdef and isinstance(gdef[UGP], ast.Constant) and gdef[UGP].value is None):
+                    fail("%s: call to %s omits use_graph_primitive, whose default is not None" % (name, g), c, path)
+                arg = "ArgOmitted"
+            elif is_name(v, UGP):
+                if UGP not in my_params:
+                    fail("%s: forwards use_graph_primitive but has no such parameter" % name, c, path)
+                accounted.add(id(v))
+                arg = "ArgPass"
+            elif isinstance(v, ast.Constant) and v.value is True:
+                arg = "(ArgConst true)"
+            elif isinstance(v, ast.Constant) and v.value is False:
+                arg = "(ArgConst false)"
+            elif isinstance(v, ast.Constant) and v.value is None:
+                arg = "ArgOmitted"
+            else:
+                fail("%s: call to %s passes an unmodelled use_graph_primitive expression" % (name, g), c, path)
+            if "acyclic" in gpos or "acyclic" in gkw:
+                w = actual("acyclic")
+                if w is None:
+                    d = gdef.get("acyclic")
+                    if not (isinstance(d, ast.Constant) and isinstance(d.value, bool)):
+                        fail("%s: call to %s omits acyclic, which has no boolean default" % (name, g), c, path)
+                    acy = "(AcyConst %s)" % ("true" if d.value else "false")
+                elif is_name(w, "acyclic"):
+                    if "acyclic" not in my_params:
+                        fail("%s: forwards acyclic but has no such parameter" % name, c, path)
+                    acy = "AcyPass"
+                elif isinstance(w, ast.Constant) and isinstance(w.value, bool):
+                    acy = "(AcyConst %s)" % ("true" if w.value else "false")
+                else:
+                    fail("%s: call to %s passes an unmodelled acyclic expression" % (name, g), c, path)
+            else:
+                acy = "(AcyConst false)"
+            gv = actual("graph") if ("graph" in gpos or "graph" in gkw) else None
+            given = gv is not None and not (isinstance(gv, ast.Constant) and gv.value is None)
+            calls.append((c.lineno, c.col_offset, name, br, var, g, arg, acy, cbool(given)))
+
+        def scan(node, br, var="VAny"):
+            """everything inside a statement that is not a site / guard header"""
+            for k in ast.walk(node):
+                if isinstance(k, ast.Call) and isinstance(k.func, ast.Name) and k.func.id in has_ugp and k.func.id in fs:
+                    accounted.add(id(k.func))
+                    handle_call(k, br, var)
+                if isinstance(k, ast.Attribute) and k.attr in NATIVE_OPS:
+                    if not is_name(k.value, "Op"):
+                        fail("%s: native operator not referenced as Op.<NAME>" % name, k, path)
+                    emits.append((k.lineno, k.col_offset, name, br, NATIVE_OPS[k.attr]))
+
+        def walk_body(stmts, br, top):
+            cur = br
+            for st in stmts:
+                mentions = [k for k in ast.walk(st) if isinstance(k, ast.Name) and k.id == UGP]
+                if isinstance(st, ast.If) and any(isinstance(k, ast.Name) and k.id == UGP for k in ast.walk(st.test)):
+                    t = st.test
+                    if isinstance(t, ast.Compare) and is_name(t.left, UGP) and len(t.ops) == 1 and isinstance(t.ops[0], ast.Is) \
+                            and isinstance(t.comparators[0], ast.Constant) and t.comparators[0].value is None:
+                        # the fallback site
+                        if not top or state["site"] is not None or state["mentioned"] or name not in has_ugp:
+                            fail("%s: the `is None` fallback must be the first use of use_graph_primitive, at the top level, once" % name, st, path)
+                        ok = (len(st.body) == 1 and not st.orelse and isinstance(st.body[0], ast.Assign) and len(st.body[0].targets) == 1
+                              and is_name(st.body[0].targets[0], UGP) and isinstance(st.body[0].value, ast.Attribute)
+                              and is_name(st.body[0].value.value, "config") and st.body[0].value.attr in FLAG_ATTRS)
+                        if not ok:
+                            fail("%s: expected `use_graph_primitive = config.<flag>` as the fallback" % name, st, path)
+                        state["site"] = FLAG_ATTRS[st.body[0].value.attr]
+                        accounted.add(id(t.left))
+                        accounted.add(id(st.body[0].targets[0]))
+                        accounted.add(id(st.body[0].value.value))
+                        state["mentioned"] = True
+                        continue
+                    # the guard
+                    if not top or state["site"] is None or state["guard"] or cur != "BrTop":
+                        fail("%s: a branch on use_graph_primitive must be the single top-level guard after the fallback" % name, st, path)
+                    if is_name(t, UGP):
+                        nacy = False
+                        accounted.add(id(t))
+                    elif (isinstance(t, ast.BoolOp) and isinstance(t.op, ast.And) and len(t.values) == 2 and is_name(t.values[0], UGP)
+                          and isinstance(t.values[1], ast.UnaryOp) and isinstance(t.values[1].op, ast.Not) and is_name(t.values[1].operand, "acyclic")):
+                        if "acyclic" not in my_params:
+                            fail("%s: guard mentions acyclic, which is not a parameter" % name, st, path)
+                        nacy = True
+                        accounted.add(id(t.values[0]))
+                    else:
+                        fail("%s: unmodelled guard on use_graph_primitive" % name, st, path)
+                    state["guard"] = True
+                    state["mentioned"] = True
+                    sites.append((st.lineno, name, state["site"], nacy))
+                    for (body, b2) in ((st.body, "BrPrim"), (st.orelse, "BrElse")):
+                        for s2 in body:
+                            if isinstance(s2, ast.Raise):
+                                e = s2.exc.func if isinstance(s2.exc, ast.Call) else s2.exc
+                                if not isinstance(e, ast.Name):
+                                    fail("%s: unmodelled raise in a guard branch" % name, s2, path)
+                                raises.append((s2.lineno, name, b2, e.id))
+                        walk_body(body, b2, False)
+                    if not st.orelse and st.body and isinstance(st.body[-1], ast.Return):
+                        cur = "BrElse"
+                    elif not st.orelse and any(isinstance(k, ast.Return) for s2 in st.body for k in ast.walk(s2)):
+                        fail("%s: conditional return inside the primitive branch" % name, st, path)
+                    continue
+                if mentions:
+                    state["mentioned"] = True
+                if (top and isinstance(st, ast.If) and isinstance(st.test, ast.Compare) and is_name(st.test.left, "graph")
+                        and len(st.test.ops) == 1 and isinstance(st.test.ops[0], ast.Is)
+                        and isinstance(st.test.comparators[0], ast.Constant) and st.test.comparators[0].value is None
+                        and "graph" in my_params):
+                    # `if graph is None: <graph inferred> else: <graph given>`: two variants of the same helper
+                    for s2 in st.body:
+                        scan(s2, cur, "VInferred")
+                    for s2 in st.orelse:
+                        scan(s2, cur, "VExplicit")
+                    continue
+                scan(st, cur)
+
+        body = body_nodoc(f)
+        walk_body(body, "BrTop", True)
+        # every remaining mention of the argument / of config must have been given a meaning
+        for k in ast.walk(f):
+            if isinstance(k, ast.arg):
+                continue
+            if isinstance(k, ast.Name) and k.id == UGP and id(k) not in accounted:
+                fail("%s: use of use_graph_primitive that the model gives no meaning to" % name, k, path)
+            if isinstance(k, ast.Name) and k.id == "config" and id(k) not in accounted:
+                fail("%s: use of config that the model gives no meaning to" % name, k, path)
+            if isinstance(k, ast.Name) and k.id in has_ugp and k.id in fs and id(k) not in accounted:
+                fail("%s: %s referenced other than by a direct call" % (name, k.id), k, path)
+        if state["site"] is not None and not state["guard"]:
+            fail("%s: fallback to config without a guard" % name, f, path)
+
+    sites.sort()
+    calls.sort()
+    emits.sort()
+    raises.sort()
+    return {
+        "sites": [(n, fl, na) for (_, n, fl, na) in sites],
+        "calls": [tuple(x[2:]) for x in calls],
+        "emits": [(a, b, c) for (_, _, a, b, c) in emits],
+        "raises": [(a, b, c) for (_, a, b, c) in raises],
+    }
+
+
+# ------------------------------------------------------------------ rendering
+
+def cs(s):
+    if not all(32 <= ord(c) < 127 for c in s):
+        raise TranslateError("string %r is not printable ASCII" % s)
+    return '"' + s.replace('"', '""') + '"'
+
+
+def clist(items):
+    return "[" + "; ".join(items) + "]"
+
+
+def cbool(b):
+    return "true" if b else "false"
+
+
+def read_all(repo):
+    base = os.path.join(repo, "cspuz")
+    t = {}
+    t.update(read_configuration(os.path.join(base, "configuration.py")))
+    t.update(read_solver(os.path.join(base, "solver.py")))
+    t.update(read_backend_classes(os.path.join(base, "backend"), t["backends"]))
+    t.update(read_graph(os.path.join(base, "graph.py")))
+    return t
+
+
+def render(t):
+    L = []
+    L.append("(* GENERATED by harness/c20_translate.py from /repo/cspuz/{configuration,solver,graph}.py and")
+    L.append("   backend/{sugar_like,z3}.py on every run of ./check C20 -- do not edit. *)")
+    L.append("From Coq Require Import String List.")
+    L.append("From Cspuz Require Import Backend.Config.")
+    L.append("Import ListNotations.")
+    L.append("Local Open Scope string_scope.")
+    L.append("")
+    L.append("Definition tables : Config.tables := {|")
+    f = []
+    f.append("  t_backends := " + clist("(%s, %s)" % (cs(a), cs(b)) for a, b in t["backends"]))
+    f.append("  t_detect := " + clist("(%s, %s)" % (cs(a), cs(b)) for a, b in t["detect"]))
+    f.append("  t_detect_fallback := " + cs(t["fallback"]))
+    f.append("  t_env_backend := " + cs(t["env_backend"]))
+    f.append("  t_backend_default := " + cs(t["backend_default"]))
+    f.append("  t_auto := " + cs(t["auto"]))
+    f.append("  t_env_path := " + cs(t["env_path"]))
+    f.append("  t_env_prim := " + cs(t["env_prim"]))
+    f.append("  t_env_div := " + cs(t["env_div"]))
+    f.append("  t_prim_on := " + clist(cs(x) for x in t["prim_on"]))
+    f.append("  t_div_on := " + clist(cs(x) for x in t["div_on"]))
+    f.append("  t_on_str := " + cs(t["on_str"]))
+    f.append("  t_off_str := " + cs(t["off_str"]))
+    f.append("  t_true := " + clist(cs(x) for x in t["true"]))
+    f.append("  t_false := " + clist(cs(x) for x in t["false"]))
+    f.append("  t_entries := " + clist(
+        "(%s, %s)" % (cs(q), ("EntryModule " + cs(v)) if k == "module" else ("EntrySubprocess " + cs(v))) for q, (k, v) in t["entries"]))
+    f.append("  t_sites := " + clist("mk_site %s %s %s" % (cs(n), fl, cbool(na)) for n, fl, na in t["sites"]))
+    f.append("  t_calls := " + clist("mk_call %s %s %s %s %s %s %s" % (cs(a), b, v, cs(c), d, e, g) for a, b, v, c, d, e, g in t["calls"]))
+    f.append("  t_emits := " + clist("mk_emit %s %s %s" % (cs(a), b, c) for a, b, c in t["emits"]))
+    f.append("  t_raises := " + clist("mk_raise %s %s %s" % (cs(a), b, cs(c)) for a, b, c in t["raises"]))
+    L.append(";\n".join(f))
+    L.append("|}.")
+    return "\n".join(L) + "\n"
